@@ -680,6 +680,7 @@ pub struct VerifyCtx<'a> {
     pub states: &'a [BTreeMap<Vec<u8>, Vec<u8>>],
     pub acks: &'a Acks,
     pub failed_ids: BTreeSet<u64>,
+    pub failed_recs: &'a [TxnRec],
 }
 
 /// Open the image with the real code and check it. `probe`: also do the commit-after-recovery
@@ -772,6 +773,15 @@ pub async fn verify_image(ctx: &VerifyCtx<'_>, img: &Path, plan: &ImagePlan, idx
                     describe_diff(&rec, &ctx.states[n])
                 ),
             ));
+            // is it the commit order with failed transactions replayed at their place?
+            if !ctx.failed_recs.is_empty() {
+                let mut all: Vec<TxnRec> = ctx.txns.to_vec();
+                all.extend(ctx.failed_recs.iter().cloned());
+                all.sort_by_key(|t| t.id);
+                if prefix_states(&all).iter().any(|s| *s == rec) {
+                    res.problems.push(("explained_by_failed_replay".into(), "the state equals a prefix of the issue order with the failed transactions applied".into()));
+                }
+            }
             // still evaluate durability per transaction marker
             for (i, t) in ctx.txns.iter().enumerate().take(required) {
                 if !rec.contains_key(&marker_key(t.id)) {
@@ -905,6 +915,9 @@ pub struct Job {
     pub cfg: Cfg,
     pub txns: Vec<TxnRec>,
     pub failed: Vec<u64>,
+    /// C15, single-committer traces only: the failed transactions with their operations, so
+    /// that a non-prefix state can be recognised as "commit order with the failed ones replayed"
+    pub failed_recs: Vec<TxnRec>,
     pub plans: Vec<ImagePlan>,
     pub probe_every: usize,
     pub base_dir: Option<PathBuf>,
@@ -918,6 +931,7 @@ impl Job {
             "trace_file": self.trace_file, "root": self.root, "cfg": self.cfg.to_json(),
             "txns": self.txns.iter().map(|t| t.to_json()).collect::<Vec<_>>(),
             "failed": self.failed,
+            "failed_recs": self.failed_recs.iter().map(|t| t.to_json()).collect::<Vec<_>>(),
             "plans": self.plans.iter().map(|p| json!({"upto": p.upto, "ref_pos": p.ref_pos, "loss": loss_json(&p.loss)})).collect::<Vec<_>>(),
             "probe_every": self.probe_every,
             "base_dir": self.base_dir,
@@ -931,6 +945,7 @@ impl Job {
             cfg: Cfg::from_json(&j["cfg"]),
             txns: j["txns"].as_array().map(|a| a.iter().map(TxnRec::from_json).collect()).unwrap_or_default(),
             failed: j["failed"].as_array().map(|a| a.iter().filter_map(|x| x.as_u64()).collect()).unwrap_or_default(),
+            failed_recs: j["failed_recs"].as_array().map(|a| a.iter().map(TxnRec::from_json).collect()).unwrap_or_default(),
             plans: j["plans"]
                 .as_array()
                 .map(|a| {
@@ -959,7 +974,7 @@ pub fn verify_main(args: &[String]) -> i32 {
     let recs = trace::parse(&std::fs::read(&job.trace_file).unwrap_or_default());
     let ak = acks(&recs);
     let states = prefix_states(&job.txns);
-    let ctx = VerifyCtx { cfg: &job.cfg, txns: &job.txns, states: &states, acks: &ak, failed_ids: job.failed.iter().cloned().collect() };
+    let ctx = VerifyCtx { cfg: &job.cfg, txns: &job.txns, states: &states, acks: &ak, failed_ids: job.failed.iter().cloned().collect(), failed_recs: &job.failed_recs };
     let scratch = crate::e1::scratch_root().join(format!("v{}", k));
     let _ = std::fs::create_dir_all(&scratch);
     let img = scratch.join("img");
